@@ -47,6 +47,8 @@ class Scanner:
     def __init__(self, denoisers):
         self.den = {id(d): d for d in denoisers}
         self.calls = []            # (module, domain, perm)
+        self.out_perms = []        # per call: the `.permute(literal)` applied to its result (None: used as returned)
+        self.pending = {}          # variable name -> indices of calls whose (not yet permuted) result it holds
         self.depth = 0
 
     # -- concrete evaluation of an expression on the instantiated objects; UNKNOWN when it involves tensors
@@ -137,7 +139,15 @@ class Scanner:
 
     def stmt(self, st, env, glob, dom, perms):
         if isinstance(st, ast.Assign):
+            n0 = len(self.calls)
             self.expr(st.value, env, glob, dom, perms)
+            fresh = [i for i in range(n0, len(self.calls)) if self.out_perms[i] is None]
+            carried = [i for nm in ast.walk(st.value) if isinstance(nm, ast.Name) for i in self.pending.get(nm.id, [])
+                       if self.out_perms[i] is None]
+            for t in st.targets:
+                for nm in ast.walk(t):
+                    if isinstance(nm, ast.Name):
+                        self.pending[nm.id] = fresh + carried
             val = self.value(st.value, env, glob)
             perm = self._perm_of(st.value, perms)
             for t in st.targets:
@@ -207,6 +217,26 @@ class Scanner:
     def expr(self, node, env, glob, dom, perms):
         import torch.nn as nn
 
+        if isinstance(node, ast.Call) and isinstance(node.func, ast.Attribute) and node.func.attr == "permute":
+            # `<expr>.permute(literal)`: the permute applied to the result of every denoiser call made inside <expr> (or held
+            # by a variable of <expr>) that has not been permuted yet
+            n0 = len(self.calls)
+            self.expr(node.func.value, env, glob, dom, perms)
+            try:
+                lit = tuple(ast.literal_eval(a) for a in node.args)
+                if len(lit) == 1 and isinstance(lit[0], (tuple, list)):
+                    lit = tuple(lit[0])
+            except (ValueError, SyntaxError):
+                lit = None
+            if lit is not None:
+                idxs = list(range(n0, len(self.calls)))
+                for nm in ast.walk(node.func.value):
+                    if isinstance(nm, ast.Name):
+                        idxs += self.pending.get(nm.id, [])
+                for i in idxs:
+                    if self.out_perms[i] is None:
+                        self.out_perms[i] = lit
+            return
         if isinstance(node, ast.Call):
             # arguments first (Python evaluates the callee expression, then the arguments; callee expressions here have no calls
             # with side effects except `self.x[idx]`)
@@ -221,6 +251,7 @@ class Scanner:
                 arg_perm = self._perm_of(node.args[0], perms) if node.args else None
                 if id(f) in self.den:
                     self.calls.append((f, dom, arg_perm))
+                    self.out_perms.append(None)
                     return
                 if type(f).__module__.startswith("torch."):
                     return
@@ -299,14 +330,24 @@ class Scanner:
         self.depth -= 1
 
 
-def scan_schedule(model, denoisers):
-    """[(denoiser module, domain, permute literal or None)] in call order"""
+def _scan(model, denoisers):
     sc = Scanner(denoisers)
     node, glob = _fn_ast(type(model).forward)
     env = {a.arg: UNKNOWN for a in node.args.args}
     env["self"] = model
     sc.block(node.body, env, glob, IMAGE, {})
-    return sc.calls
+    return sc
+
+
+def scan_schedule(model, denoisers):
+    """[(denoiser module, domain, permute literal or None)] in call order"""
+    return _scan(model, denoisers).calls
+
+
+def scan_schedule_full(model, denoisers):
+    """[(denoiser module, domain, permute literal applied to the argument, permute literal applied to the result)]"""
+    sc = _scan(model, denoisers)
+    return [(m, d, p, o) for (m, d, p), o in zip(sc.calls, sc.out_perms)]
 
 
 def io_channels(mod):
